@@ -284,6 +284,8 @@ PROP = 'C12'
 GENERATED = ['IsoVolterra']
 F = Fraction
 TOL = 1e-8        # default `tol` of the solvers
+TOLS = [TOL, TOL, TOL, 1e-6, 1e-5]     # the `tol` argument is varied: every clean-up / acceptance threshold must follow it
+TOL_C = 1e-8      # ElasticConstants.transform is called without tol: its own default cleans the rotated stiffness
 RTOL_NP = 1e-5    # numpy's default rtol of allclose (used by the code's self-checks and axes_check)
 
 
@@ -428,7 +430,7 @@ def gen_spec(rng, cls=None, route=None, mn=None, aniso=1.0, near_identity=False,
     if four_index:
         route = 'miller'
     scale = rng.choice([1.0, 1.0, 160.25, 0.0078125])
-    spec = {'cls': cls, 'cij': gen_cij(rng, cls, aniso=aniso, scale=scale), 'route': route, 'tol': TOL,
+    spec = {'cls': cls, 'cij': gen_cij(rng, cls, aniso=aniso, scale=scale), 'route': route, 'tol': rng.choice(TOLS),
             'cart_axes': False, 'box': None, 'transform': None, 'xi_uvw': None, 'slip_hkl': None}
     m, n = gen_mn(rng, mn)
     spec['m'], spec['n'] = m, n
@@ -561,7 +563,8 @@ def gen_sweep(rng, cls=None, bkind=None):
     elif bkind in ('tiny-n', 'small-n'):
         m, n = mn_vectors(sw)
         bmax = float(np.abs(be * m + bs * np.cross(m, n)).max())
-        f = rng.choice([0.25e-8, 0.5e-8, 1e-12]) if bkind == 'tiny-n' else rng.choice([2e-8, 1e-6, 1e-3, 4e-8])
+        t = sw['tol']
+        f = rng.choice([0.25 * t, 0.5 * t, 1e-4 * t]) if bkind == 'tiny-n' else rng.choice([2 * t, 100 * t, 1e-3, 4 * t])
         bn_ = sg() * f * bmax
     sw['bkind'] = 'frame:' + bkind
     sw['burgers'] = 'frame'
@@ -791,7 +794,7 @@ def _orientation_case(ctx, spec, s):
     # rotation of C and of the Burgers vector
     cij = np.array(spec['cij'], dtype=float)
     b = np.array(v3(resolve_burgers(spec)), dtype=float)       # Miller-Bravais -> Miller is C16's business
-    out = ctx.driver.ask(f'orient {cm.fr(tol)} {cm.frs(s.transform)} {cm.frs(box.vects)} {cm.frs(cij)} {cm.frs(b)}')
+    out = ctx.driver.ask(f'orient {cm.fr(TOL_C)} {cm.fr(tol)} {cm.frs(s.transform)} {cm.frs(box.vects)} {cm.frs(cij)} {cm.frs(b)}')
     ctx.stats.case('rotate-C-b', (tuple(cij.ravel()), tuple(s.transform.ravel()), tuple(b)),
                    sample={'op': 'rotate C, b', **_spec_sample(spec)})
     if out.startswith('err:'):
@@ -800,7 +803,7 @@ def _orientation_case(ctx, spec, s):
     vals = cm.unfrs(out)
     big = float(np.abs(cij).max())
     # entries within tol*max of the round-off clean-up threshold may be zeroed on one side only: atol 2 tol max
-    if not cm.allclose(s.C.Cij.ravel(), vals[:36], 1e-12, 2.5 * tol * big):
+    if not cm.allclose(s.C.Cij.ravel(), vals[:36], 1e-12, 2.5 * TOL_C * big):
         ctx.disagree('rotate:C', f'rotated stiffness differs from the model ({spec["cls"]}, route {spec["route"]})', rep)
     bb = float(np.abs(s.burgers).max())
     if not cm.allclose(s.burgers, vals[36:39], 1e-12, 2.5 * tol * bb):
@@ -1050,18 +1053,22 @@ def gen_refusals(rng, k):
     for it in range(k):
         spec = gen_spec(rng, cls=rng.choice(['cubic', 'orthorhombic']), route=rng.choice(['default', 'transform']), mn='rot')
         spec['burgers'] = [1.0, 0.5, 0.25]
+        # kinds, the solver's tol and the borderline deviations are enumerated (first 81 cases), then drawn at random
+        spec['tol'] = [1e-8, 1e-6, 1e-5][(it // 9) % 3]
+        pick = (lambda lst: lst[(it // 27) % len(lst)]) if it < 81 else rng.choice       # noqa: E731
+        t8 = spec['tol'] / 1e-8            # borderline deviations scale with the solver's tol
         m, n = (np.array(v) for v in mn_vectors(spec))
         kind = ['m-norm', 'n-norm', 'angle', 'cart', 'cart-ok', 'axes-skew', 'axes-left', 'n-norm', 'angle'][it % 9]
         spec['malformed'] = kind
         if kind in ('m-norm', 'n-norm'):
-            f = 1 + rng.choice([1e-3, 1.0, -0.5, 2e-8, -2e-8, 0.5e-8, -0.5e-8, 1e-6, 0.25])
+            f = 1 + pick([0.5e-8 * t8, -2e-8 * t8, -0.5e-8 * t8, 2e-8 * t8, 1e-3, 1.0, -0.5, 1e-6, 0.25])
             if kind == 'm-norm':
                 m = m * f
             else:
                 n = n * f
             spec['factor'] = f
         elif kind == 'angle':
-            e = rng.choice([1e-3, 0.1, 2e-8, -2e-8, 0.5e-8, 1e-6])
+            e = pick([0.5e-8 * t8, 2e-8 * t8, -0.5e-8 * t8, -2e-8 * t8, 1e-3, 0.1, 1e-6])
             n = n * math.cos(e) + m * math.sin(e)
             spec['angle'] = e
         elif kind == 'cart':
@@ -1188,7 +1195,7 @@ def correspond(ctx):
         _orientation_case(ctx, spec, s)
         _isok_case(ctx, spec, s)
         _iso_case(ctx, spec, s, gen_points(rng, s, rng.choice([1, 4, 8, 12])))
-    for spec in gen_refusals(rng, ctx.n(36, 270)):
+    for spec in gen_refusals(rng, ctx.n(54, 270)):
         _refusal_case(ctx, spec)
     ctx.extra['t_iso_refusals_s'] = round(time.time() - t1, 2)
     t2 = time.time()
@@ -1275,7 +1282,7 @@ def _clauses(ctx, spec, s, rng, kind):
             tr = s.stress(X * s.m + 0.5 * s.ξ).dot(s.n)
             want = K.dot(beff) / (2 * math.pi * X)
             ctx.stats.case('oracle:traction', (kind, X, str(spec['cij']), str(spec['m']), str(spec['n']), tuple(b)))
-            if np.iscomplexobj(tr) or float(np.abs(tr - want).max()) > 1e-7 * float(np.abs(K).max()) * bn / X:
+            if np.iscomplexobj(tr) or float(np.abs(tr - want).max()) > max(1e-7, 3 * spec['tol']) * float(np.abs(K).max()) * bn / X:
                 ctx.violate(f'{kind}:K-traction', f'{kind}: traction on the slip plane at distance {X} ahead of the line is '
                             f'{np.asarray(tr).tolist()}, K.b/(2 pi X) = {want.tolist()}', dict(rep0, X=X))
                 break
@@ -1354,7 +1361,7 @@ def _clauses(ctx, spec, s, rng, kind):
             continue
         jump = uu[0] - uu[1]
         beff = b
-        if float(np.abs(jump - beff).max()) > 1e-6 * bn:
+        if float(np.abs(jump - beff).max()) > max(1e-6, 3 * spec['tol']) * bn:
             ctx.violate(f'{kind}:burgers-jump', f'{kind}: displacement jump across the cut at distance {r} is {jump.tolist()}, '
                         f'Burgers vector {beff.tolist()}', rep)
         # closed circuit: sum of the increments around the circle, not crossing the cut, equals the same jump;
@@ -1403,7 +1410,7 @@ def _covariance(ctx, spec, rng, kind):
     except Exception as e:  # noqa
         ctx.violate(f'{kind}:covariance-raises', f'{kind}: the rotated problem is refused: {type(e).__name__}: {e}', rep)
         return
-    tol = 5e-7
+    tol = max(5e-7, 4 * spec['tol'])        # clean-up of near-zero entries happens in one frame, not in the other
     ctx.stats.case('oracle:covariance', (kind, str(spec['cij']), str(specB['m']), str(specB['n']), str(specB['transform'])),
                    sample={'op': 'covariance', 'solver': kind, 'R': R.tolist(), **_spec_sample(spec)})
     bn = float(np.linalg.norm(A.burgers))
@@ -1420,7 +1427,10 @@ def _covariance(ctx, spec, rng, kind):
         bad.append('K_tensor')
     if abs(B.K_coeff - A.K_coeff) > tol * kmax or abs(B.preln - A.preln) > tol * kmax * bn * bn:
         bad.append('K_coeff/preln')
-    if abs(B.characterangle() - A.characterangle()) > 1e-6:
+    # compared through sine and cosine: near 0 / 180 degrees the angle itself moves like the square root of a component
+    # that the round-off clean-up (relative size <= tol) removes in one frame only
+    ca, cb = math.radians(A.characterangle()), math.radians(B.characterangle())
+    if max(abs(math.cos(ca) - math.cos(cb)), abs(math.sin(ca) - math.sin(cb))) > max(2e-8, 4 * spec['tol']):
         bad.append('characterangle')
     for it in range(3):
         r = rng.choice([1.0, 0.125, 12.0])
@@ -1480,7 +1490,7 @@ def _search_refusals(ctx, rng, k):
             import atomman as am
             mm_, nn_ = mn_vectors(spec)
             try:
-                am.defect.dislocation_system_transform([1, -1, 0], [1, 1, 1], m=mm_, n=nn_)
+                am.defect.dislocation_system_transform([1, -1, 0], [1, 1, 1], m=mm_, n=nn_, tol=spec['tol'])
                 got['dislocation_system_transform'] = 'ok'
             except AssertionError:
                 got['dislocation_system_transform'] = 'err:assert'
@@ -1637,7 +1647,7 @@ def _dispatch_sweep(ctx, sw, rng, clauses=True):
         for r in (1.0, 0.25):
             jmp = _jump(A, r, z=rng.choice([0.0, -2.0]))
             ctx.stats.case('oracle:dispatch-jump', (eps, r, str(sw['dir']), str(sw['bframe']), str(sw['m']), str(sw['n']), str(sw['transform'])))
-            if np.iscomplexobj(jmp) or float(np.abs(jmp - A.burgers).max()) > 1e-6 * bnorm:
+            if np.iscomplexobj(jmp) or float(np.abs(jmp - A.burgers).max()) > max(1e-6, 3 * tol) * bnorm:
                 ctx.violate('dispatch:burgers-jump', f'{got["auto"]} returned by solve_volterra_dislocation at anisotropy {eps}: '
                             f'displacement jump across the cut at distance {r} is {np.asarray(jmp).tolist()}, Burgers vector '
                             f'{A.burgers.tolist()} ({label})', dict(rep, r=r))
@@ -1648,7 +1658,7 @@ def _dispatch_sweep(ctx, sw, rng, clauses=True):
         ds = float((np.abs(Sg - So).reshape(len(P), -1).max(axis=1) * rr).max()) / (bnorm * mu) / 4
         dk = float(np.abs(K - Ko).max()) / float(np.abs(Ko).max())
         cur = {'displacement': du, 'strain*r': de, 'stress*r/4mu': ds, 'K': dk}
-        bound = LIMIT_C * eps + LIMIT_FLOOR
+        bound = LIMIT_C * eps + max(LIMIT_FLOOR, 5 * tol)      # components below tol max|b| are cleaned away / not carried
         ctx.stats.case('oracle:iso-limit', (eps, str(sw['dir']), sw['lam'], sw['mu'], str(sw['bframe']), str(sw['m']), str(sw['n']), str(sw['transform'])),
                        sample={'op': 'anisotropy -> 0', 'eps': eps, 'solver': got['auto'], 'b_frame': sw['bframe'],
                                'relative difference to the complete isotropic closed form': cur})
@@ -1819,7 +1829,7 @@ def search(ctx, broken):
         _clauses(ctx, spec, s, rng, kind)
         if it % 2 == 0:
             _covariance(ctx, spec, rng, kind)
-    _search_refusals(ctx, rng, ctx.n(27, 180) * mult)
+    _search_refusals(ctx, rng, ctx.n(81, 324) * mult)
     t1 = time.time()
     nsw = ctx.n(21, 140) * mult
     for it in range(nsw):
